@@ -1567,6 +1567,10 @@ fn c06(tier: Tier) -> i32 {
                 files.entry(loc.to_string()).or_default().extend(renamed);
             }
         }
+        if files.is_empty() {
+            // every chain of this chunk is outside the space (rejected, open, or the recorded finding)
+            continue;
+        }
         let mut p = Project::new(Config::simple("en", &["en", "fr"]));
         for (loc, e) in files {
             p.set_file(None, &loc, e);
